@@ -33,11 +33,18 @@ def grad(t):
     return -(t - 0.2) - 0.4 * t ** 3
 
 
-def make_chains(kind, N, seed, display=True, d=2):
+UNSORTED = {2: [2.0, 1.0], 3: [4.0, 1.0, 2.0], 4: [1.5, 9.0, 1.0, 4.0], 5: [3.0, 1.0, 8.0, 2.0, 5.0]}
+
+
+def ladder_of(N, which="sorted"):
+    return LADDERS[N] if which == "sorted" or N not in UNSORTED else UNSORTED[N]
+
+
+def make_chains(kind, N, seed, display=True, d=2, ladder="sorted"):
     from inference.mcmc import GibbsChain, HamiltonianChain, PcaChain
 
     chains = []
-    for i, T in enumerate(LADDERS[N]):
+    for i, T in enumerate(ladder_of(N, ladder)):
         start = np.array([0.5 - 0.4 * i, 0.1 + 0.3 * i][:d])
         k = kind if kind != "mixed" else ("GibbsChain", "PcaChain", "HamiltonianChain")[i % 3]
         if k == "GibbsChain":
@@ -163,7 +170,8 @@ def ev_exchange(case):
     kind, N, seed, presteps = case["chains"], case["N"], case["seed"], case["presteps"]
     fails, fkeys, tags = [], set(), set()
     n = 0
-    ladder = LADDERS[N]
+    ladder = ladder_of(N, case.get("ladder", "sorted"))
+    lname = case.get("ladder", "sorted")
 
     def add_fail(key, what, **kw):
         if key not in fkeys:
@@ -176,7 +184,7 @@ def ev_exchange(case):
         def parent(PAR, out):
             gen = ScriptedGenerator(ctx, name="pt")
             PAR.choice = lambda seq: seq[ctx.choose("choice", [1.0 / len(seq)] * len(seq))]
-            pt = PAR.ParallelTempering(make_chains(kind, N, seed, True))
+            pt = PAR.ParallelTempering(make_chains(kind, N, seed, True, ladder=lname))
             pt.rng = gen
             if presteps:
                 pt.take_steps(presteps)
@@ -188,12 +196,18 @@ def ev_exchange(case):
             out.update(before=before, after=after, da=pt.attempted_swaps - a0, ds=pt.successful_swaps - s0)
 
         out, done, excs = run_serial_schedule(parent, seed=seed)
+        for e in excs.values():
+            if isinstance(e, HarnessError):
+                raise e
         if excs or not done:
-            raise HarnessError(f"exchange run failed: {excs}")
+            return {"error": "; ".join(f"{k}: {type(e).__name__}: {e}" for k, e in excs.items()) or "run did not complete (a process is blocked for ever)"}
         return out
 
     for ctx, out in explore(body):
         n += 1
+        if "error" in out:
+            add_fail("exchange/swap-or-return_chains-raises-or-blocks", out["error"][:500], choices=ctx.choices)
+            continue
         before, after, da, ds = out["before"], out["after"], out["da"], out["ds"]
         pairs = [(i, j) for i in range(N) for j in range(N) if da[i, j] > 0]
         # each chain in at most one proposed pair; pairs ordered; floor(N/2) pairs
@@ -232,7 +246,7 @@ def ev_exchange(case):
                 if after[a].chain_length != before[a].chain_length or not np.array_equal(
                         np.asarray(after[a].get_sample(burn=0))[:-1], np.asarray(before[a].get_sample(burn=0))[:-1]):
                     add_fail("exchange/history-of-exchanged-chain-changed", f"chain {a}", choices=ctx.choices)
-            tags.add(f"N={N}:accepted-exchange:{kind}")
+            tags.add(f"N={N}:accepted-exchange:{kind}:{lname}")
         for i in range(N):
             if i not in touched and chain_bytes(after[i]) != chain_bytes(before[i]):
                 add_fail("exchange/unexchanged-chain-modified", f"chain {i}", choices=ctx.choices)
@@ -262,13 +276,19 @@ def ev_pairs(case):
             pt.shutdown()
 
         out, done, excs = run_serial_schedule(parent)
+        for e in excs.values():
+            if isinstance(e, HarnessError):
+                raise e
         if excs or not done:
-            raise HarnessError(f"{excs}")
+            return ("error", "; ".join(f"{k}: {type(e).__name__}: {e}" for k, e in excs.items()) or "blocked")
         return out["pairs"]
 
     seen = {}
     for ctx, pairs in explore(body, max_exec=20000):
         n += 1
+        if pairs and pairs[0] == "error":
+            add_fail(f"pairing/{case['method']}/raises", str(pairs[1])[:400], choices=ctx.choices)
+            continue
         used = [i for p in pairs for i in p]
         if len(used) != len(set(used)) or any(not (0 <= i < N) for i in used):
             add_fail(f"pairing/{case['method']}/chain-in-more-than-one-pair", f"N={N}: {pairs}", choices=ctx.choices)
@@ -394,8 +414,11 @@ def run(ck):
                 if q and pre and kind != "GibbsChain":
                     continue
                 ex.append(dict(chains=kind, N=N, seed=1 + seed, presteps=pre))
+    for N in (2, 3, 4):
+        ex.append(dict(chains="GibbsChain", N=N, seed=1 + seed, presteps=1, ladder="unsorted"))
     if not q:
         ex.append(dict(chains="mixed", N=5, seed=2, presteps=1))
+        ex.append(dict(chains="mixed", N=5, seed=2, presteps=1, ladder="unsorted"))
     ck.run_cases("exchange", ex, chunk=1)
     ck.run_cases("pairs", [dict(N=N, method=m) for N in range(1, 8 if not q else 7) for m in ("tight_pairs", "uniform_pairs")], chunk=1)
     ns = list(range(0, 61)) + [99, 100, 101, 130] if q else list(range(0, 131))
